@@ -471,10 +471,29 @@ class TlEnv:
                 if s is not None:
                     lst.append(s)
         self.schemas = TlSchemas(lst)
+        # behaviour probes (the model mirrors the code that exists; two pending repairs on fix/tl change what is parsed):
+        #  * vectors of base types parsed element-wise through a one-field pseudo schema {'_': subtype}
+        #  * `#` fields read unsigned
+        probe = TlSchemas([reg.register('c19.pvec v:(vector int) = c19.P;'), reg.register('c19.pflag flags:# = c19.P;')])
+        try:
+            r, _ = probe.deserialize(probe.get_by_name('c19.pvec').little_id() + (2).to_bytes(4, 'little') + bytes(8))
+            self.base_vec = r.get('v') == [0, 0]
+        except Exception:
+            self.base_vec = False
+        try:
+            r, _ = probe.deserialize(probe.get_by_name('c19.pflag').little_id() + b'\xff\xff\xff\xff')
+            self.nat_unsigned = r.get('flags', -1) > 0
+        except Exception:
+            self.nat_unsigned = False
+        self.pseudo = {}            # base type -> index of its one-field pseudo schema (appended to the table)
         # the library resolves by id / name through dicts (last registration wins): table index = that schema
         self.lst = lst
         self.index = {id(s): i for i, s in enumerate(lst)}
-        self.table = '|'.join(self.schema_str(s) for s in lst)
+        rows = [self.schema_str(s) for s in lst]
+        for t, i in sorted(self.pseudo.items(), key=lambda kv: kv[1]):
+            k = self.schemas.base_types[t]
+            rows.append('ffffffffff:' + (f'f{k}' if k else ('b1' if t in ('bytes', 'string') else 'f0')))
+        self.table = '|'.join(rows)
 
     def sid(self, name):
         s = self.schemas.get_by_name(name)
@@ -492,7 +511,7 @@ class TlEnv:
             if t in S.base_types:
                 k = S.base_types[t]
                 if k:
-                    ty = ('F' if field in ('mode', 'flags') else 'f') + str(k)
+                    ty = (('U' if (t == '#' and self.nat_unsigned) else 'F') if field in ('mode', 'flags') else 'f') + str(k)
                 elif t in ('bytes', 'string'):
                     auto = not (s.name in S.untouchables and field in S.untouchables[s.name])
                     ty = 'b1' if auto else 'b0'
@@ -500,7 +519,12 @@ class TlEnv:
                     ty = 'f0'
             elif t.startswith('('):
                 if 'vector' in t:
-                    sub = self.sid(t.split()[1][:-1])
+                    st = t.split()[1][:-1]
+                    sub = self.sid(st)
+                    if self.base_vec and st in S.base_types:
+                        if st not in self.pseudo:
+                            self.pseudo[st] = len(self.lst) + len(self.pseudo)
+                        sub = self.pseudo[st]
                     ty = 'vx' if sub is None else f'v{sub}'
                 else:
                     ty = 'f0'
